@@ -1,6 +1,9 @@
 package main
 
-import "go/types"
+import (
+	"go/types"
+	"regexp"
+)
 
 // unmarshalEmpty: protobuf semantics — decoding the empty byte string yields the zero message. Together with
 // unmarshal(marshal(v)) == v this gives "marshal(v) is empty only for the zero message".
@@ -15,3 +18,48 @@ func (fc *FnCtx) unmarshalEmpty(un string, t types.Type) {
 	}
 	fc.B.Assert(eq("("+un+" \"\")", fc.zero(t)))
 }
+
+// specAxiomsRelevant: axioms of uninterpreted (recursively specified) spec functions are emitted only when
+// the contract under verification (or the lemma) mentions the function itself.
+func (fc *FnCtx) specAxiomsRelevant(name string) bool {
+	if fc.C == nil {
+		return true
+	}
+	has := func(cs []Clause) bool {
+		for _, c := range cs {
+			if containsIdent(c.Src, name) {
+				return true
+			}
+		}
+		return false
+	}
+	if has(fc.C.Requires) || has(fc.C.Ensures) {
+		return true
+	}
+	for _, inv := range fc.C.Invs {
+		if has(inv) {
+			return true
+		}
+	}
+	return false
+}
+
+func containsIdent(s, id string) bool {
+	for i := 0; i+len(id) <= len(s); i++ {
+		if s[i:i+len(id)] != id {
+			continue
+		}
+		before := i == 0 || !isIdentChar(s[i-1])
+		after := i+len(id) == len(s) || !isIdentChar(s[i+len(id)])
+		if before && after {
+			return true
+		}
+	}
+	return false
+}
+
+func isIdentChar(c byte) bool {
+	return c == '_' || c >= '0' && c <= '9' || c >= 'a' && c <= 'z' || c >= 'A' && c <= 'Z'
+}
+
+var mapGhostRe = regexp.MustCompile(`^map(seq|n|pos)([0-9]+)$`)
